@@ -241,7 +241,8 @@ func init() {
 		ID:        "C19",
 		Technique: "reflect validity typestate/taint analysis (sources: ValueOf/TypeOf of possibly-nil interfaces, flowing through slices, returns and parameters; sinks: Value/Type methods; sanitisers: Kind/IsValid/nil tests on the surviving edge) plus validate-before-invoke path rules",
 		Explanation: "every reflect.ValueOf/TypeOf of a possibly-nil interface in callable.go (incl. the Types that flow from typesArgs through a slice into resolveArgs) is used only where Kind()==K, IsValid() or a nil test established validity (the defect repaired by 9473d38; one reasoned exception: the results thunk); " +
-			"callable.Call returns every error before the args thunk, the function or the results thunk is invoked, invokes the function exactly once, args before and results after; each option stores its thunk only after every error return; targets/arguments are validated with AssignableTo; the args thunk skips Set only for an untyped nil; result targets are written only by the results thunks.",
+			"callable.Call returns every error before the args thunk, the function or the results thunk is invoked, invokes the function exactly once, args before and results after; each option stores its thunk only after every error return; targets/arguments are validated with AssignableTo; the args thunk skips Set only for an untyped nil; result targets are written only by the results thunks; " +
+			"every reflect.FuncOf is reached only where its type list was found to hold at most 128 entries (the defect repaired by d0cbc9c); kind-restricted reflect calls are guarded by a Kind test on the same expression (or the kind follows from construction); nothing in callable.go recovers, so a panic of the called function propagates.",
 		NotDecided: "arity/assignability for arbitrary signatures (run-time types): e.g. Call(fn(int) int, CallResults(&r)) without CallArgs panics inside reflect ('too few input arguments') - outside static reach.",
 		Build: func(c *Ctx) []*an.Oblig {
 			rvObligations(c, func(fn string) bool {
